@@ -221,6 +221,53 @@ func c18Draws(c *Ctx, n int) {
 		}(g)
 	}
 	wg.Wait()
+	// signed burst: every goroutine builds SIGNED messages on ONE service provider at the same moment (the ID is created,
+	// then the element is signed for a millisecond or so: an ID kept anywhere but in the element itself gets overwritten
+	// by the neighbour in between)
+	{
+		bsp := newSP(c.R, baseNow)
+		bsp.IdentityProviderSSOURL, bsp.IdentityProviderSLOURL = "https://idp.example.com/sso", "https://idp.example.com/slo"
+		bsp.SPKeyStore = w.SPEnc.KeyStore()
+		bsp.SignAuthnRequests = true
+		burst := c.N(24, 200)
+		extra := make([][]c18Draw, G)
+		start := make(chan struct{})
+		for g := 0; g < G; g++ {
+			wg.Add(1)
+			go func(g int) {
+				defer wg.Done()
+				defer func() {
+					if r := recover(); r != nil {
+						errs[g] = fmt.Sprint("panic: ", r)
+					}
+				}()
+				<-start
+				for k := 0; k < burst; k++ {
+					var id string
+					var err error
+					kind := []string{"AuthnRequest", "LogoutRequest", "LogoutResponse"}[(g+k)%3]
+					switch kind {
+					case "AuthnRequest":
+						id, err = c18IDOf(bsp.BuildAuthRequestDocument())
+					case "LogoutRequest":
+						id, err = c18IDOf(bsp.BuildLogoutRequestDocument("alice@example.com", "_s1"))
+					default:
+						id, err = c18IDOf(bsp.BuildLogoutResponseDocument(statusOK, "_req1"))
+					}
+					if err != nil {
+						errs[g] = kind + " (signed burst): " + err.Error()
+						return
+					}
+					extra[g] = append(extra[g], c18Draw{id, kind})
+				}
+			}(g)
+		}
+		close(start)
+		wg.Wait()
+		for g := range extra {
+			out[g] = append(out[g], extra[g]...)
+		}
+	}
 	for g, e := range errs {
 		if e != "" {
 			c.Violate("spec", "builder-failed", "a message builder failed or panicked while identifiers were drawn: "+e, map[string]interface{}{"goroutine": g})
